@@ -7,7 +7,7 @@ import warnings
 import numpy as np
 
 
-def cases(mode, scratch):
+def cases(mode, scratch, thorough=False, seed=0):
     """yields (name, kernel, thunk)"""
     out = []
 
@@ -179,4 +179,72 @@ def cases(mode, scratch):
         for starts, inds in (([0], []), ([0, 2], [0, 1]), ([0, 2, 3], [0, 1, 3]), ([0, 0, 0], [])):
             menv.msum_core(np.zeros(len(starts) - 1), np.ones(4), np.array(inds, dtype=np.int64), np.array(starts, dtype=np.int64), 1, nthread=2)
     add('msum_core', 'msum_core', th_msum, modes=('nojit',))
+    if thorough:
+        rng = np.random.default_rng(seed)
+        # random interpolation grids with lookups one ulp around every knot
+        for rep in range(300):
+            nk = int(rng.integers(2, 40))
+            x0, dx = float(rng.uniform(0, 2)), float(10 ** rng.uniform(-3, 0.5))
+            dt = [np.float32, np.float64][rep % 2]
+
+            def th(nk=nk, x0=x0, dx=dx, dt=dt):
+                x = (x0 + dx * np.arange(nk)).astype(dt)
+                y = np.arange(nk).astype(dt)
+                for xk in x:
+                    for xd in (np.nextafter(xk, dt(-np.inf)), xk, np.nextafter(xk, dt(np.inf))):
+                        ps.linear_interp(dt(xd), x, y)
+            add(f'fuzz-linear_interp-{rep}', 'linear_interp', th, modes=('bc',))
+        # random particles on and around the domain boundaries for the serial deposit kernels
+        for rep in range(60):
+            shape = tuple(int(v) for v in rng.integers(2, 7, 3))
+            box = float(rng.choice([1.0, 7.0, 1000.0, 2000.0]))
+
+            def th(shape=shape, box=box, rep=rep):
+                r2 = np.random.default_rng(rep)
+                n = 200
+                pos = r2.uniform(0, box, (n, 3)).astype(np.float32)
+                pos[:20] = np.nextafter(np.float32(box), np.float32(0))
+                pos[20:40] = 0.0
+                pos[40:60] = (r2.integers(0, 2 * max(shape), (20, 3)) * (box / max(shape) / 2)).astype(np.float32) % np.float32(box)
+                tsc._tsc_scatter(pos, np.zeros(shape, dtype=np.float32), box, offset=float(r2.choice([0.0, 0.5 * box / shape[0]])))
+                cic.cic_serial(pos, np.zeros(shape, dtype=np.float32), box)
+                cic.cic_serial(pos, np.zeros((shape[0], shape[1], 1), dtype=np.float32), box)
+            add(f'fuzz-deposit-{rep}', '_tsc_scatter/cic_serial', th, modes=('bc',))
+        # random binning configurations (interpreted)
+        for rep in range(40):
+            n = int(rng.integers(2, 8))
+            nb = int(rng.integers(1, 5))
+            kedges = np.sort(rng.uniform(0, n, nb + 1))
+            kedges[0] = float(rng.choice([0.0, kedges[0]]))
+
+            def th(n=n, kedges=kedges, rep=rep):
+                w = np.ones((n, n, n // 2 + 1))
+                nmu = 1 + rep % 4
+                ps.bin_kmu(n, L, kedges, np.linspace(0, 1, nmu + 1), w, poles=np.array([0, 2]), dtype=np.float64, nthread=1 + rep % 3)
+                ps.bin_kppi(n, L, kedges, float(0.3 + rep % 5), 1 + rep % 4, w, dtype=np.float64, nthread=1 + rep % 3)
+            add(f'fuzz-binning-{rep}', 'bin_kmu/bin_kppi', th, modes=('nojit',))
+        # random partitions incl. values one ulp below BoxSize and exactly BoxSize
+        for rep in range(40):
+            def th(rep=rep):
+                r2 = np.random.default_rng(1000 + rep)
+                box = float(r2.choice([1.0, 123.0, 1000.0]))
+                npart = int(r2.integers(1, 40))
+                n = int(r2.integers(0, 50))
+                dt = [np.float32, np.float64][rep % 2]
+                pos = r2.uniform(0, box, (n, 3)).astype(dt)
+                if n > 2:
+                    pos[0, 0] = np.nextafter(dt(box), dt(0))
+                    pos[1, 0] = box
+                tsc.partition_parallel(pos, npart, box, weights=(np.ones(n, dtype=dt) if rep % 3 else None), coord=0, nthread=1 + rep % 5, sort=bool(rep % 2))
+            add(f'fuzz-partition-{rep}', 'partition_parallel', th, modes=('nojit',))
+        # random small HOD tables
+        for rep in range(12):
+            def th(rep=rep):
+                r2 = np.random.default_rng(2000 + rep)
+                H = int(r2.integers(0, 9))
+                halos = hc.make_halos(r2, H)
+                halos['hrandoms'] = halos['hrandoms'] * 0.3
+                parts = hc.make_particles(r2, halos, int(r2.integers(0, 12)) if H else 0)
+                hc.run_hod(halos, parts, {t: dict(hc.TRACERS[t], ic=1.0) for t in hc.ORDER[: 1 + rep % 3]}, 1 + rep % 6, rsd=bool(rep % 2), enable_ranks=bool(rep % 3))
+            add(f'fuzz-hod-{rep}', 'gen_cent/gen_sats/fast_concatenate', th, modes=('nojit',))
     return out
